@@ -48,6 +48,31 @@ var _ models.AuthRequestInt = (*AuthRequest)(nil)
 
 var ErrInjected = errors.New("injected storage fault")
 
+// timeoutErr is what a storage layer reports when its backend did not answer in time: it says so through Timeout(), like a
+// net.Error, and unwraps to context.DeadlineExceeded.
+type timeoutErr struct{}
+
+func (timeoutErr) Error() string   { return "injected storage fault: i/o timeout" }
+func (timeoutErr) Timeout() bool   { return true }
+func (timeoutErr) Temporary() bool { return true }
+func (timeoutErr) Unwrap() error   { return context.DeadlineExceeded }
+
+// injected returns the error value of a fault kind: the plain sentinel, or for the kinds "timeout" / "canceled" errors of the
+// shapes retry and fallback logic looks for (a failure is a failure whatever its shape).
+func injected(kind string) error {
+	switch kind {
+	case "timeout":
+		return fmt.Errorf("storage: %w", timeoutErr{})
+	case "canceled":
+		return fmt.Errorf("storage: %w", context.Canceled)
+	case "notfound":
+		return fmt.Errorf("storage: not found: %w", errNotFound)
+	}
+	return ErrInjected
+}
+
+var errNotFound = errors.New("no such record")
+
 // Store is the model storage. All methods are safe for concurrent use.
 type Store struct {
 	mu       sync.Mutex
@@ -220,7 +245,7 @@ func (s *Store) Health(context.Context) error {
 	kind, c := s.enter("Health")
 	if kind != "" {
 		c.Err = ErrInjected.Error()
-		return ErrInjected
+		return injected(kind)
 	}
 	return nil
 }
@@ -231,13 +256,13 @@ func (s *Store) keyResult(op, name string) (*key.CertificateAndKey, error) {
 	switch kind {
 	case "":
 		return &key.CertificateAndKey{Certificate: k.CertDER, Key: k.RSA}, nil
-	case "error":
+	case "error", "timeout", "canceled", "notfound":
 		c.Err = ErrInjected.Error()
-		return nil, ErrInjected
+		return nil, injected(kind)
 	case "errval":
 		// an error together with a usable value: callers must go by the error
 		c.Err = ErrInjected.Error()
-		return &key.CertificateAndKey{Certificate: k.CertDER, Key: k.RSA}, ErrInjected
+		return &key.CertificateAndKey{Certificate: k.CertDER, Key: k.RSA}, injected(kind)
 	case "nil":
 		return nil, nil
 	case "nokey":
@@ -283,11 +308,11 @@ func (s *Store) GetEntityByID(_ context.Context, entityID string) (*serviceprovi
 	kind, c := s.enter("GetEntityByID", entityID)
 	if kind == "errval" {
 		c.Err = ErrInjected.Error()
-		return s.sps[entityID], ErrInjected
+		return s.sps[entityID], injected(kind)
 	}
 	if kind != "" {
 		c.Err = ErrInjected.Error()
-		return nil, ErrInjected
+		return nil, injected(kind)
 	}
 	sp, ok := s.sps[entityID]
 	if !ok && s.Lenient {
@@ -313,11 +338,11 @@ func (s *Store) GetEntityIDByAppID(_ context.Context, appID string) (string, err
 	kind, c := s.enter("GetEntityIDByAppID", appID)
 	if kind == "errval" {
 		c.Err = ErrInjected.Error()
-		return s.apps[appID], ErrInjected
+		return s.apps[appID], injected(kind)
 	}
 	if kind != "" {
 		c.Err = ErrInjected.Error()
-		return "", ErrInjected
+		return "", injected(kind)
 	}
 	e, ok := s.apps[appID]
 	if !ok {
@@ -334,7 +359,7 @@ func (s *Store) CreateAuthRequest(_ context.Context, req *samlp.AuthnRequestType
 	c.Req = req
 	if kind != "" {
 		c.Err = ErrInjected.Error()
-		return nil, ErrInjected
+		return nil, injected(kind)
 	}
 	s.nextID++
 	id := fmt.Sprintf("%s%d", s.IDPrefix, s.nextID)
@@ -360,13 +385,13 @@ func (s *Store) AuthRequestByID(_ context.Context, id string) (models.AuthReques
 		c.Err = ErrInjected.Error()
 		if r, ok := s.requests[id]; ok {
 			cp := *r
-			return &cp, ErrInjected
+			return &cp, injected(kind)
 		}
-		return nil, ErrInjected
+		return nil, injected(kind)
 	}
 	if kind != "" {
 		c.Err = ErrInjected.Error()
-		return nil, ErrInjected
+		return nil, injected(kind)
 	}
 	r, ok := s.requests[id]
 	if !ok {
@@ -419,11 +444,11 @@ func (s *Store) SetUserinfoWithUserID(_ context.Context, appID string, set model
 			}
 			applyUser(u, set)
 		}
-		return ErrInjected
+		return injected(kind)
 	}
 	if kind != "" {
 		c.Err = ErrInjected.Error()
-		return ErrInjected
+		return injected(kind)
 	}
 	u, ok := s.users[userID]
 	if !ok {
@@ -449,11 +474,11 @@ func (s *Store) SetUserinfoWithLoginName(_ context.Context, set models.Attribute
 			}
 			applyUser(u, set)
 		}
-		return ErrInjected
+		return injected(kind)
 	}
 	if kind != "" {
 		c.Err = ErrInjected.Error()
-		return ErrInjected
+		return injected(kind)
 	}
 	u, ok := s.byLogin[loginName]
 	if !ok {
